@@ -173,10 +173,69 @@ def ctrl_cmd(rng):
     return rng.choice(["Voice", "VOICE"]) + rng.choice(["(%s)", "=%s;"]) % ",".join(rng.choice(["1", "5", "128", "0", "40"]) for _ in range(rng.choice([1, 1, 2, 3])))
 
 
+RES_INTS = ["0", "1", "64", "100", "127", "40", "90", "-1", "-3", "2", "5", "200", "!4", "!8", "!16", "!1", "!2", "48", "24", "96", "$7F", "8191", "-8192"]
+
+
+def int_array(rng, n=None, kind="any"):
+    n = n if n is not None else rng.choice([1, 2, 3, 3, 3, 4, 6, 6, 0])
+    pools = {"vel": ["100", "127", "64", "1", "0", "80", "40", "200", "-1"], "oct": ["4", "5", "6", "3", "7", "0", "10", "11", "-1"],
+             "len": ["!4", "!8", "!16", "48", "24", "96", "!2", "0", "1", "!4."], "tim": ["0", "1", "-1", "3", "-3", "10"],
+             "gate": ["100", "50", "90", "10", "1", "120", "0"]}
+    if kind == "ramp":
+        vals = []
+        for _ in range(rng.choice([1, 1, 2, 3])):
+            vals += [rng.choice(["0", "127", "64", "40", "100", "-10", "200", "8191", "-8192"]), rng.choice(["0", "127", "64", "40", "100", "8191", "-100"]),
+                     rng.choice(["!4", "!2", "!1", "!8", "96", "48", "10", "1", "0", "-5", "!1^2", "7"])]
+        if rng.random() < 0.15:
+            vals = vals[:-rng.choice([1, 2])]
+    else:
+        vals = [rng.choice(pools.get(kind, RES_INTS)) for _ in range(n)]
+    sep = rng.choice([",", ",", ", ", " ,"])
+    return sep.join(vals)
+
+
+def arr_form(rng, body):
+    return rng.choice(["(%s)", "(%s)", "(%s)", "=%s;", "( %s )", "(%s", " (%s)", "=%s "]) % body
+
+
+def res_cmd(rng):
+    """one reservation command (pipeline model, step 2)"""
+    k = rng.random()
+    if k < 0.30:
+        x, kind = rng.choice([("v", "vel"), ("q", "gate"), ("t", "tim"), ("o", "oct"), ("l", "len")])
+        w = rng.choice(["onNote", "onNote", "N", "onCycle", "onCycle", "C"])
+        return x + "." + w + arr_form(rng, int_array(rng, kind=kind))
+    if k < 0.40:
+        return "v." + rng.choice(["onTime", "onTime", "T"]) + arr_form(rng, int_array(rng, kind="ramp"))
+    if k < 0.52:
+        x = rng.choice(["v", "q", "t", "o", "v", "l"])
+        return x + ".Random" + rng.choice(["(%s)", "=%s;", "=%s ", "(%s", " (%s)"]) % rng.choice(["0", "1", "2", "3", "5", "10", "20", "64", "-4", "200"])
+    if k < 0.72:
+        head = rng.choice(["y7", "y1", "y11", "y10", "y91", "M", "V", "EP", "P", "REV", "Modulation", "Expression", "CC(7)", "y 64"])
+        w = rng.choice(["onTime", "onTime", "T", "onNote", "N", "onNoteWave", "W", "onNoteWave"])
+        kind = "ramp" if w in ("onTime", "T", "onNoteWave", "W") else "vel"
+        return head + "." + w + arr_form(rng, int_array(rng, kind=kind))
+    if k < 0.78:
+        head = rng.choice(["M", "V", "EP", "y7", "P"])
+        return head + ".Frequency" + rng.choice(["(%s)", "=%s;", "(%s"]) % rng.choice(["1", "2", "4", "8", "0", "-1", "24", "96"])
+    if k < 0.86:
+        head = rng.choice(["PB", "PitchBend", "p", "p"])
+        return head + rng.choice([".onTime", ".T"]) + arr_form(rng, int_array(rng, kind="ramp"))
+    if k < 0.90:
+        head = rng.choice(["M", "V", "EP", "y7"])
+        return head + "." + rng.choice(["onCycle", "C", "Sine", "onNoteSine", "onNoteWaveEx", "WE", "Foo", "x"]) + arr_form(rng, int_array(rng))
+    if k < 0.95:
+        return rng.choice(["Fadein", "Fadeout"]) + rng.choice(["(%s)", "=%s;", "(%s"]) % rng.choice(["1", "2", "0", "-1", "4"])
+    return rng.choice(["Cresc", "Decresc", "CRESC", "DECRESC"]) + rng.choice(
+        ["(%s)", "=%s;", " %s ", "(%s,100,20)", "=%s,30;", "(%s,,5)", "()%.0s"]) % rng.choice(["!2", "4", "1", "!1", "2.", "", "8^8"])
+
+
 def ext_item(rng, feats):
     k = rng.random()
-    if k < 0.45:
+    if k < 0.30:
         return ctrl_cmd(rng)
+    if k < 0.55 and feats.get("reservations", True):
+        return res_cmd(rng)
     return item(rng, feats.get("depth", 2), feats)
 
 
